@@ -79,7 +79,7 @@ Section Main.
     destruct (dp_block2_fix b); [|reflexivity]. apply dp_find_update_other. exact Hn.
   Qed.
 
-  Lemma fix_path : dp_uri_path (sp_fix_block2 req) = dp_uri_path opts.
+  Lemma fix_path : dp_uri_path cfg (sp_fix_block2 req) = dp_uri_path cfg opts.
   Proof.
     unfold sp_fix_block2. fold opts.
     destruct (dp_is_request (m_code req)); [|reflexivity].
@@ -181,7 +181,7 @@ Section Main.
       rewrite dp_find_update_other by exact H2. apply fix_find; exact H1.
     Qed.
 
-    Lemma adj_path : dp_uri_path (sp_adjusted cfg req) = dp_uri_path opts.
+    Lemma adj_path : dp_uri_path cfg (sp_adjusted cfg req) = dp_uri_path cfg opts.
     Proof.
       unfold sp_adjusted. destruct (sp_mine cfg req); [apply fix_path|].
       destruct (dp_find DP_HOP_LIMIT (sp_fix_block2 req)); [|apply fix_path].
@@ -269,7 +269,7 @@ Section Main.
       replace (m_code (sp_req' cfg req)) with code by reflexivity.
       replace (m_opts (sp_req' cfg req)) with (sp_adjusted cfg req) by reflexivity.
       rewrite adj_path.
-      change (dp_lookup cfg (sp_forward cfg req) code (dp_uri_path opts)) with (sp_target cfg req).
+      change (dp_lookup cfg (sp_forward cfg req) code (dp_uri_path cfg opts)) with (sp_target cfg req).
       destruct (sp_target cfg req) eqn:Et.
       + rewrite <- Et. apply run_allowed; auto. unfold sp_found. now rewrite Et.
       + rewrite <- Et. apply run_allowed; auto. unfold sp_found. now rewrite Et.
